@@ -45,6 +45,21 @@ CHECKS.update({
                 note='Trusted: the monitor automaton (harness/monitors.py mon_protocol), well-behaved recording applications, peers are the library itself.'),
 })
 
+CHECKS.update({
+    'C06': dict(engine='simnet', level='exploration', design='3/C06',
+                technique='property-based testing: credit-accounting invariant over the producer endpoint\'s own send/receive log, generated credit sequences and delivery timings',
+                text='All library stream sources (generator, async generator, Rx3/Rx4 plain and back-pressure observables) in the responder role and both channel directions, with stingy generated credit; sent <= credit at every send, sent == min(elements, credit) at quiescence, granted values equal wire values.',
+                note='Trusted: tap and credit monitor; lease off.'),
+    'C09': dict(engine='simnet', level='exploration', design='3/C09',
+                technique='property-based testing: generated cancel moments (incl. request+cancel in one read, cancel racing completion) with recording publishers/futures/generators as oracle for producer cancellation',
+                text='Cancels of request-response, stream and channel interactions at generated moments among bystanders; exactly one CANCEL, nothing delivered after cancel() returned, peer producer cancelled and silent, bystanders delivered in full.',
+                note='Trusted: recording application; plain Rx observables are observable on the wire only.'),
+    'C10': dict(engine='simnet', level='exploration', design='3/C10',
+                technique='property-based testing: generated interaction sequences with every ending on a reduced (wrapping) stream id space; invariant over stream tables and reassembly caches at quiescence',
+                text='1-12 interactions with all endings, ids wrapping and reused within a run; at quiescence no table entry or partial frame for any interaction that terminated at the API.',
+                note='Reads StreamControl._streams and FrameFragmentCache._frames_by_stream_id like the suite\'s assert_no_open_streams; lowers _maximum_stream_id like the suite.'),
+})
+
 NOT_YET = {}
 
 
